@@ -217,7 +217,7 @@ def gen_cond(rng, depth=0):
     nn = [v for v in dom if v is not None]
     op = rng.choice(['=', '!=', '<', '>', '<=', '>=', 'IN', 'NOT IN', 'in', 'not in', 'IS NULL', 'IS NOT NULL',
                      'is null'] + (['LIKE', 'NOT LIKE', 'like'] if col == 's' else []))
-    if op in ('=', '!=') and rng.random() < 0.02:
+    if op in ('=', '!=') and rng.random() < 0.05:
         val = list(range(50, 50 + rng.choice([1000, 1001, 1200]))) if col == 'n' else ["w%d" % i for i in range(1001)]
         val = val + [v for v in dom if v is not None][:1]
     elif op in ('=', '!='):
@@ -226,7 +226,7 @@ def gen_cond(rng, depth=0):
                           tuple(rng.choice(nn) for _ in range(rng.randint(0, 2)))])
     elif op.upper() in ('IN', 'NOT IN'):
         val = rng.choice([list, tuple, set])(rng.choice(dom) for _ in range(rng.randint(0, 3)))
-        if rng.random() < 0.03:
+        if rng.random() < 0.08:
             # a very long list (databases often limit the number of items: code may split it)
             n_items = rng.choice([999, 1000, 1001, 1500, 2001])
             filler = list(range(100, 100 + n_items)) if col == 'n' else ["v%d" % i for i in range(n_items)]
